@@ -31,7 +31,7 @@ pub fn to_lowercase_ascii(s: &str) -> String {
 pub fn fmt_stub(_args: std::fmt::Arguments<'_>) -> String { String::new() }
 
 // ---- reference decoder for requests / OACK, written from RFC 1350 / 2347 -------------------
-pub const MAXL: usize = 12;
+pub const MAXL: usize = 32;
 
 fn lower(c: u8) -> u8 { if c >= b'A' && c <= b'Z' { c + 32 } else { c } }
 
@@ -187,94 +187,134 @@ fn topts_eq(a: &Vec<TransferOption>, b: &Vec<TransferOption>) -> bool {
     same
 }
 
-/// C10: every datagram of length L whose first two bytes are OP_HI, OP_LO (symbolic when
-/// OPSYM: then constrained to be no valid opcode), all other bytes symbolic.
-/// STABLE: additionally re-encode what was accepted and decode again.
+/// Decode `b[..len]` with the real decoder and compare with the reference decoding / the
+/// rejection rules of the property; STABLE: also re-encode what was accepted and decode again.
+/// (A macro, expanded in the harness: the buffer must stay a local array there, or the concrete
+/// template bytes are no longer constant-folded by the NUL search.)
+macro_rules! check_decode {
+    ($b:ident, $len:expr, $stable:expr) => {
+    let res = Packet::deserialize(&$b[..$len]);
+    let op: u16 = if $len >= 2 { (($b[0] as u16) << 8) | $b[1] as u16 } else { 0 };
+    if $len < 2 || op == 0 || op > 6 {
+        assert!(res.is_err(), "C10 reject: datagram shorter than an opcode / with an unknown opcode was accepted");
+    } else if op == 4 {
+        match &res {
+            Ok(Packet::Ack(n)) => assert!($len >= 4 && *n == (($b[2] as u16) << 8 | $b[3] as u16), "C10 ack: wrong block number / accepted a short ACK"),
+            Ok(_) => assert!(false, "C10 ack: decoded to another packet kind"),
+            Err(_) => assert!($len < 4, "C10 ack: well-formed ACK rejected"),
+        }
+    } else if op == 3 {
+        match &res {
+            Ok(Packet::Data { block_num, data }) => {
+                assert!($len >= 4 && *block_num == (($b[2] as u16) << 8 | $b[3] as u16), "C10 data: wrong block number / accepted a short DATA");
+                assert!(data.len() == ($len as usize).wrapping_sub(4), "C10 data: payload length");
+                let mut i = 0;
+                while i < MAXL { if i < data.len() { assert!(data[i] == $b[4 + i], "C10 data: payload bytes"); } i += 1; }
+            }
+            Ok(_) => assert!(false, "C10 data: decoded to another packet kind"),
+            Err(_) => assert!($len < 4, "C10 data: well-formed DATA rejected"),
+        }
+    } else if op == 5 {
+        let code: u16 = if $len >= 4 { ($b[2] as u16) << 8 | $b[3] as u16 } else { 0xFFFF };
+        match &res {
+            Ok(Packet::Error { code: c, msg }) => {
+                assert!($len >= 4 && code <= 7 && (*c as u16) == code, "C10 error: accepted a short ERROR / an unknown error code");
+                match next_nul(&$b, 4, $len) {
+                    Some(z) => assert!(str_is(msg, &$b, (4, z)) || bytes_eq(msg.as_bytes(), b"(no message)"), "C10 error: message differs from the bytes before the NUL"),
+                    None => assert!(bytes_eq(msg.as_bytes(), b"(no message)"), "C10 error: message without NUL (documented leniency) must decode to the placeholder"),
+                }
+            }
+            Ok(_) => assert!(false, "C10 error: decoded to another packet kind"),
+            Err(_) => assert!($len < 4 || code > 7, "C10 error: well-formed ERROR rejected"),
+        }
+    } else {
+        // RRQ / WRQ / OACK against the reference decoder
+        let r = ref_parse(&$b, $len, op != 6);
+        match &res {
+            Ok(Packet::Rrq { filename, mode, options }) => {
+                assert!(op == 1 && r.ok, "C10 request: malformed RRQ accepted (missing NUL terminator / non-numeric option value)");
+                assert!(str_is(filename, &$b, r.f) && str_is(mode, &$b, r.m) && opts_are(options, &r), "C10 request: RRQ fields differ from the reference decoding");
+            }
+            Ok(Packet::Wrq { filename, mode, options }) => {
+                assert!(op == 2 && r.ok, "C10 request: malformed WRQ accepted (missing NUL terminator / non-numeric option value)");
+                assert!(str_is(filename, &$b, r.f) && str_is(mode, &$b, r.m) && opts_are(options, &r), "C10 request: WRQ fields differ from the reference decoding");
+            }
+            Ok(Packet::Oack(options)) => {
+                assert!(op == 6 && r.ok, "C10 request: malformed OACK accepted (missing NUL terminator / non-numeric option value)");
+                assert!(opts_are(options, &r), "C10 request: OACK options differ from the reference decoding");
+            }
+            Ok(_) => assert!(false, "C10 request: decoded to another packet kind"),
+            Err(_) => assert!(!r.ok, "C10 request: well-formed request / OACK rejected"),
+        }
+    }
+    if $stable {
+        if let Ok(p) = &res {
+            let bytes = p.serialize();
+            assert!(bytes.is_ok(), "C10 stable: accepted packet does not re-encode");
+            if let Ok(bytes) = bytes {
+                let again = Packet::deserialize(&bytes);
+                match &again {
+                    Ok(q) => assert!(same_packet(p, q), "C10 stable: decode(encode(decode(x))) differs from decode(x)"),
+                    Err(_) => assert!(false, "C10 stable: re-encoded packet is rejected"),
+                }
+                std::mem::forget(again);
+            }
+        }
+    }
+    kani::cover!(true, "witness: decoder returned");
+    std::mem::forget(res);
+    };
+}
+
+/// C10: every datagram of length L whose first two bytes are 0, OPLO, all other bytes symbolic.
 macro_rules! c10_decode {
-    ($(#[$attr:meta])* $name:ident, $l:expr, $opsym:expr, $oplo:expr, $stable:expr, $unw:expr) => {
+    ($(#[$attr:meta])* $name:ident, $l:expr, $ophi:expr, $oplo:expr, $stable:expr, $unw:expr) => {
         #[kani::proof]
         #[kani::unwind($unw)]
         #[kani::stub(std::fmt::format, fmt_stub)]
         $(#[$attr])*
         fn $name() {
             let mut b: [u8; MAXL] = kani::any();
-            let len: usize = $l;
-            if !$opsym {
-                if len > 0 { b[0] = 0; }
-                if len > 1 { b[1] = $oplo; }
-            } else if len > 1 {
-                kani::assume(b[0] != 0 || b[1] == 0 || b[1] > 6);
-            }
-            let res = Packet::deserialize(&b[..len]);
-            let op: u16 = if len >= 2 { ((b[0] as u16) << 8) | b[1] as u16 } else { 0 };
-            if len < 2 || op == 0 || op > 6 {
-                assert!(res.is_err(), "C10 reject: datagram shorter than an opcode / with an unknown opcode was accepted");
-            } else if op == 4 {
-                match &res {
-                    Ok(Packet::Ack(n)) => assert!(len >= 4 && *n == ((b[2] as u16) << 8 | b[3] as u16), "C10 ack: wrong block number / accepted a short ACK"),
-                    Ok(_) => assert!(false, "C10 ack: decoded to another packet kind"),
-                    Err(_) => assert!(len < 4, "C10 ack: well-formed ACK rejected"),
-                }
-            } else if op == 3 {
-                match &res {
-                    Ok(Packet::Data { block_num, data }) => {
-                        assert!(len >= 4 && *block_num == ((b[2] as u16) << 8 | b[3] as u16), "C10 data: wrong block number / accepted a short DATA");
-                        assert!(data.len() == len - 4, "C10 data: payload length");
-                        let mut i = 0;
-                        while i < MAXL { if i < data.len() { assert!(data[i] == b[4 + i], "C10 data: payload bytes"); } i += 1; }
-                    }
-                    Ok(_) => assert!(false, "C10 data: decoded to another packet kind"),
-                    Err(_) => assert!(len < 4, "C10 data: well-formed DATA rejected"),
-                }
-            } else if op == 5 {
-                let code: u16 = if len >= 4 { (b[2] as u16) << 8 | b[3] as u16 } else { 0xFFFF };
-                match &res {
-                    Ok(Packet::Error { code: c, msg }) => {
-                        assert!(len >= 4 && code <= 7 && (*c as u16) == code, "C10 error: accepted a short ERROR / an unknown error code");
-                        match next_nul(&b, 4, len) {
-                            Some(z) => assert!(str_is(msg, &b, (4, z)) || bytes_eq(msg.as_bytes(), b"(no message)"), "C10 error: message differs from the bytes before the NUL"),
-                            None => assert!(bytes_eq(msg.as_bytes(), b"(no message)"), "C10 error: message without NUL (documented leniency) must decode to the placeholder"),
-                        }
-                    }
-                    Ok(_) => assert!(false, "C10 error: decoded to another packet kind"),
-                    Err(_) => assert!(len < 4 || code > 7, "C10 error: well-formed ERROR rejected"),
-                }
-            } else {
-                // RRQ / WRQ / OACK against the reference decoder
-                let r = ref_parse(&b, len, op != 6);
-                match &res {
-                    Ok(Packet::Rrq { filename, mode, options }) => {
-                        assert!(op == 1 && r.ok, "C10 request: malformed RRQ accepted (missing NUL terminator / non-numeric option value)");
-                        assert!(str_is(filename, &b, r.f) && str_is(mode, &b, r.m) && opts_are(options, &r), "C10 request: RRQ fields differ from the reference decoding");
-                    }
-                    Ok(Packet::Wrq { filename, mode, options }) => {
-                        assert!(op == 2 && r.ok, "C10 request: malformed WRQ accepted (missing NUL terminator / non-numeric option value)");
-                        assert!(str_is(filename, &b, r.f) && str_is(mode, &b, r.m) && opts_are(options, &r), "C10 request: WRQ fields differ from the reference decoding");
-                    }
-                    Ok(Packet::Oack(options)) => {
-                        assert!(op == 6 && r.ok, "C10 request: malformed OACK accepted (missing NUL terminator / non-numeric option value)");
-                        assert!(opts_are(options, &r), "C10 request: OACK options differ from the reference decoding");
-                    }
-                    Ok(_) => assert!(false, "C10 request: decoded to another packet kind"),
-                    Err(_) => assert!(!r.ok, "C10 request: well-formed request / OACK rejected"),
-                }
-            }
-            if $stable {
-                if let Ok(p) = &res {
-                    let bytes = p.serialize();
-                    assert!(bytes.is_ok(), "C10 stable: accepted packet does not re-encode");
-                    if let Ok(bytes) = bytes {
-                        let again = Packet::deserialize(&bytes);
-                        match &again {
-                            Ok(q) => assert!(same_packet(p, q), "C10 stable: decode(encode(decode(x))) differs from decode(x)"),
-                            Err(_) => assert!(false, "C10 stable: re-encoded packet is rejected"),
-                        }
-                        std::mem::forget(again);
-                    }
-                }
-            }
-            kani::cover!(res.is_ok(), "witness: some datagram of this shape decodes");
+            if $l > 0 { b[0] = $ophi; }
+            if $l > 1 { b[1] = $oplo; }
+            check_decode!(b, $l, $stable);
+        }
+    };
+}
+
+/// C10: every datagram of length L with the invalid opcode (OPHI, OPLO) and symbolic tail: rejected.
+macro_rules! c10_badop {
+    ($name:ident, $l:expr, $ophi:expr, $oplo:expr) => {
+        #[kani::proof]
+        #[kani::unwind(10)]
+        #[kani::stub(std::fmt::format, fmt_stub)]
+        fn $name() {
+            let mut b: [u8; 8] = kani::any();
+            b[0] = $ophi;
+            b[1] = $oplo;
+            let res = Packet::deserialize(&b[..$l]);
+            assert!(res.is_err(), "C10 reject: datagram shorter than an opcode / with an unknown opcode was accepted");
+            kani::cover!(true, "witness: decoder returned");
             std::mem::forget(res);
+        }
+    };
+}
+
+/// C10 / C09: a concrete datagram template in which the bytes at the listed positions are
+/// symbolic (any value, incl. NUL): decides terminator / digit / letter-case handling at those
+/// positions for all 256 values each, against the reference decoder.
+macro_rules! c10_template {
+    ($(#[$attr:meta])* $name:ident, [$($byte:expr),*], [$($pos:expr),*], $stable:expr, $unw:expr) => {
+        #[kani::proof]
+        #[kani::unwind($unw)]
+        #[kani::stub(std::fmt::format, fmt_stub)]
+        $(#[$attr])*
+        fn $name() {
+            let mut b = [0u8; MAXL];
+            let mut len = 0;
+            $( b[len] = $byte; len += 1; )*
+            $( b[$pos] = kani::any(); )*
+            check_decode!(b, len, $stable);
         }
     };
 }
